@@ -1,0 +1,169 @@
+//! Reader-side hooks: `ChunkedChars` (buffered_input.rs), `RingReader` (ring_reader.rs) and the
+//! raw parser item stream of the reader input together with the deferred I/O error cell.
+use crate::buffered_input::{ChunkedChars, buffered_input_from_reader_with_limit};
+use crate::ring_reader::{MAX_READ_AHEAD, RING_BUFFER_SIZE, RingReader};
+use std::cell::RefCell;
+use std::io::{self, Read};
+use std::rc::Rc;
+
+pub const RING_BUFFER_SIZE_HOOK: usize = RING_BUFFER_SIZE;
+pub const MAX_READ_AHEAD_HOOK: usize = MAX_READ_AHEAD;
+
+/// Small stable code of an `io::ErrorKind` (only the kinds the reader glue produces or tests inject).
+pub fn kind_code(k: io::ErrorKind) -> u8 {
+    match k {
+        io::ErrorKind::Other => 0,
+        io::ErrorKind::UnexpectedEof => 1,
+        io::ErrorKind::Interrupted => 2,
+        io::ErrorKind::InvalidData => 3,
+        io::ErrorKind::FileTooLarge => 4,
+        io::ErrorKind::BrokenPipe => 5,
+        io::ErrorKind::WriteZero => 6,
+        io::ErrorKind::ConnectionReset => 7,
+        io::ErrorKind::TimedOut => 8,
+        _ => 99,
+    }
+}
+
+/// One call of `ChunkedChars::next`: the produced character and the content of the shared error
+/// cell right after the call (the hook *takes* the cell after every call, like `io_error()`).
+#[derive(Clone, Debug, PartialEq, Eq)]
+pub struct ChunkedStep {
+    pub ch: Option<char>,
+    pub err: Option<u8>,
+}
+
+/// Drive `ChunkedChars::next` over `reader`. Calling continues after a `None` (the parser's
+/// `BufferedInput` does the same: `input.next().unwrap_or('\0')`) until `max_none` calls returned
+/// `None` or `max_calls` calls were made.
+pub fn chunked_chars_run<R: Read>(
+    reader: R,
+    max_bytes: Option<usize>,
+    max_none: usize,
+    max_calls: usize,
+) -> Vec<ChunkedStep> {
+    let cell: Rc<RefCell<Option<io::Error>>> = Rc::new(RefCell::new(None));
+    let mut it = ChunkedChars::new(reader, max_bytes, cell.clone());
+    let mut out = Vec::new();
+    let mut nones = 0;
+    while out.len() < max_calls && nones < max_none {
+        let ch = it.next();
+        if ch.is_none() {
+            nones += 1;
+        }
+        let err = cell.borrow_mut().take().map(|e| kind_code(e.kind()));
+        out.push(ChunkedStep { ch, err });
+    }
+    out
+}
+
+/// Operations on a `RingReader`.
+#[derive(Clone, Debug)]
+pub enum RingOp {
+    /// `read(&mut buf[..n])`
+    Read(usize),
+    /// `get_recent()`
+    Recent,
+}
+
+#[derive(Clone, Debug, PartialEq, Eq)]
+pub struct RingSnap {
+    pub start_offset: u64,
+    pub end_offset: u64,
+    pub start_line: usize,
+    pub bytes: Vec<u8>,
+}
+
+#[derive(Clone, Debug, PartialEq, Eq)]
+pub enum RingOut {
+    Read(Result<Vec<u8>, u8>),
+    Recent(Result<RingSnap, u8>),
+}
+
+/// Result of one operation plus `offset()` and `read_ahead_len()` observed after it.
+#[derive(Clone, Debug, PartialEq, Eq)]
+pub struct RingStep {
+    pub out: RingOut,
+    pub offset: u64,
+    pub read_ahead: usize,
+}
+
+pub fn ring_run<R: Read>(inner: R, ops: &[RingOp]) -> Vec<RingStep> {
+    let mut rr = RingReader::new(inner);
+    let mut res = Vec::with_capacity(ops.len());
+    for op in ops {
+        let out = match op {
+            RingOp::Read(n) => {
+                let mut buf = vec![0u8; *n];
+                RingOut::Read(match rr.read(&mut buf) {
+                    Ok(k) => {
+                        buf.truncate(k);
+                        Ok(buf)
+                    }
+                    Err(e) => Err(kind_code(e.kind())),
+                })
+            }
+            RingOp::Recent => RingOut::Recent(match rr.get_recent() {
+                Ok(s) => Ok(RingSnap {
+                    start_offset: s.start_offset,
+                    end_offset: s.end_offset,
+                    start_line: s.start_line,
+                    bytes: s.bytes,
+                }),
+                Err(e) => Err(kind_code(e.kind())),
+            }),
+        };
+        res.push(RingStep {
+            out,
+            offset: rr.offset(),
+            read_ahead: rr.read_ahead_len(),
+        });
+    }
+    res
+}
+
+/// One item of the parser iterator over the reader input.
+pub enum ReaderItem {
+    Ev(saphyr_parser::Event<'static>, saphyr_parser::Span),
+    /// scan error: (is "unknown anchor" message, marker line, marker column)
+    Err(bool, usize, usize),
+}
+
+/// The raw parser items of a reader input as `LiveEvents::from_reader` sees them
+/// (`buffered_input_from_reader_with_limit` + `Parser::new`), together with the moments at which the
+/// deferred error cell became set: `fired[j] = (n, kind)` means that after `n` items had been
+/// delivered (counting the item whose pull set it) the cell was found set with that kind. The
+/// hook takes the cell every time it finds it set, so a reader that keeps failing shows up as
+/// several entries.  `max_items` bounds the run; at most two items are pulled after a scan error.
+pub fn reader_items_with_cell<R: Read>(
+    reader: R,
+    max_bytes: Option<usize>,
+    max_items: usize,
+) -> (Vec<ReaderItem>, Vec<(usize, u8)>) {
+    let (input, cell) = buffered_input_from_reader_with_limit(reader, max_bytes);
+    let mut parser = saphyr_parser::Parser::new(input);
+    let mut items = Vec::new();
+    let mut fired = Vec::new();
+    let mut errs = 0;
+    while items.len() < max_items {
+        let it = parser.next();
+        let done = it.is_none();
+        match it {
+            None => {}
+            Some(Ok((ev, span))) => items.push(ReaderItem::Ev(ev, span)),
+            Some(Err(e)) => {
+                let m = e.marker();
+                let ua = e.info().to_ascii_lowercase().contains("unknown anchor");
+                items.push(ReaderItem::Err(ua, m.line(), m.col()));
+                errs += 1;
+            }
+        }
+        if let Some(e) = cell.borrow_mut().take() {
+            fired.push((items.len(), kind_code(e.kind())));
+        }
+        if done || errs >= 3 {
+            break;
+        }
+    }
+    (items, fired)
+}
